@@ -1,13 +1,21 @@
 #!/bin/sh
-# Build the whole framework offline from files on disk: regenerate the Lean model from /repo,
-# build every proof module and model driver, build the harness (path deps on /repo), warm the
-# zoo's compiled-parser cache.
-set -e
-cd "$(dirname "$0")"
+# Build the framework offline from files on disk: regenerate the Lean model from /repo, build the
+# proof modules and model drivers of every claimed property, build the harness (path deps on
+# /repo), warm the zoo's compiled-parser cache.  Each check rebuilds what it needs anyway; a
+# failure in one property's build must not prevent the others from being set up.
+cd "$(dirname "$0")" || exit 1
 export CARGO_NET_OFFLINE=true
 mkdir -p .cache evidence replay
-python3 translator/c2lean.py --repo "${VERIF_REPO:-/repo}" --out lean/TsVerif/Gen --status .cache/gen_status.json
-(cd lean && lake build)
-(cd harness && cargo build --release --offline --bins)
-./harness/target/release/smoke > .cache/smoke.txt 2>&1 || true
+python3 translator/c2lean.py --repo "${VERIF_REPO:-/repo}" --out lean/TsVerif/Gen --status .cache/gen_status.json || exit 1
+(cd lean && lake build TsVerif.Common.Tree TsVerif.Common.IO tsv-gen) || exit 1
+(cd harness && cargo build --release --offline --lib) || exit 1
+for id in $(python3 -c "import json; print(' '.join(c['property_id'] for c in json.load(open('MANIFEST.json'))['checks']))"); do
+  lid=$(echo "$id" | tr 'A-Z' 'a-z')
+  echo "== setup $id"
+  (cd lean && lake build "TsVerif.$id.Props" "tsv-$lid") || echo "WARN: lean build for $id failed"
+  feat=""
+  [ "$id" = "C20" ] && feat="--features cli"
+  (cd harness && cargo build --release --offline $feat --bin "$lid") || echo "WARN: harness build for $id failed"
+done
+(cd harness && cargo build --release --offline --bin smoke && ./target/release/smoke > ../.cache/smoke.txt 2>&1) || true
 echo "setup done"
